@@ -4,7 +4,7 @@ import G3d.Props.C05
 
 `test_point` decides **per vertex** whether the test ray passes through it (`onRay`: within 1e-8 of the ray), so the two edges that
 meet at a vertex agree about it (`vertex_agreement`); an edge whose start (end) is on the ray is counted by the side on which its
-other end lies — no intersection is solved, so an edge running along the ray is handled like any other
+other end lies, i.e. by the sign of `(d × edge) · normal` (since 3rd repair: not `is_same_direction`, whose parallel test is absolute) — no intersection is solved, so an edge running along the ray is handled like any other
 (`crossingIncrement_start/_end`); an edge with both ends on the ray is left to its neighbours (`crossingIncrement_along`); any other
 edge counts iff it properly crosses (`crossingIncrement_proper`).  Every edge is counted at most once.  Over ℝ: `onRay_iff`.
 -/
@@ -42,12 +42,12 @@ theorem crossingIncrement_along (normal d : V3 α) (ray s : Segment α)
     angle between edge and ray (no intersection is solved) -/
 theorem crossingIncrement_start (normal d : V3 α) (ray s : Segment α)
     (ha : Loop.onRay ray.start d s.start = true) (hb : Loop.onRay ray.start d s.stop = false) :
-    Loop.crossingIncrement normal d ray s = if (d.cross s.asVector).isSameDirection normal then 1 else 0 := by
+    Loop.crossingIncrement normal d ray s = if (d.cross s.asVector).dot normal >. (0 : α) then 1 else 0 := by
   unfold Loop.crossingIncrement; simp [ha, hb]
 
 theorem crossingIncrement_end (normal d : V3 α) (ray s : Segment α)
     (ha : Loop.onRay ray.start d s.start = false) (hb : Loop.onRay ray.start d s.stop = true) :
-    Loop.crossingIncrement normal d ray s = if (d.cross s.asReversedVector).isSameDirection normal then 1 else 0 := by
+    Loop.crossingIncrement normal d ray s = if (d.cross s.asReversedVector).dot normal >. (0 : α) then 1 else 0 := by
   unfold Loop.crossingIncrement; simp [ha, hb]
 
 /-- neither end on the ray: a crossing is a proper one, with both parameters in `[0, 1]` -/
